@@ -14,8 +14,8 @@ WF(e) ==
   ELSE IF e.origin = "validate" /\ e.rule \notin ToSet(e.rules) THEN "validation error not tagged with a rule that ran"
   ELSE IF e.origin = "validate" /\ Len(e.locs) = 0 THEN "validation error without a location"
   ELSE IF \E j \in 1..Len(e.locs) : e.locs[j][1] < 1 \/ e.locs[j][2] < 1 THEN "location with a line or column below 1"
-  ELSE IF e.origin \in {"lex", "parse", "load", "validate"} /\ Len(e.locs) > 0 /\ e.file \notin ToSet(e.srcNames)
-       THEN "located error does not carry the name of the source it came from"
+  ELSE IF e.origin \in {"lex", "parse", "load", "validate"} /\ e.file \notin ToSet(e.srcNames)
+       THEN "error does not carry the name of the source it came from (every source given to the call is named)"
   ELSE IF e.origin = "limit" /\ "LimitErrorBare" \notin Devs /\ (e.file \notin ToSet(e.srcNames) \/ Len(e.locs) = 0)
        THEN "token-limit error does not carry a location and the name of the source"
   ELSE IF ~(ToSet(e.json.keys) \subseteq {"message", "locations", "path", "extensions"}) THEN "JSON encoding has a key the response format does not define"
